@@ -289,6 +289,13 @@ pub fn universe(b: &Base) -> Vec<Key> {
     u
 }
 
+pub fn memo_ok(b: &Base, pool: Pool, i: u8) -> bool {
+    match pool {
+        Pool::Orchard => b.o_memo_ok[i as usize],
+        Pool::Ironwood => b.i_memo_ok[i as usize],
+    }
+}
+
 fn real_spends(b: &Base, pool: Pool) -> &[usize] {
     match pool {
         Pool::Orchard => &b.o_spend_idx,
@@ -343,7 +350,7 @@ pub fn set_vals(b: &Base, k: &Key) -> u8 {
                 }
             }
             OA::SpZip32 | OA::OutZip32 | OA::OutUserAddr => 2,
-            OA::EncRepr => 1,
+            OA::EncRepr => memo_ok(b, pool, i) as u8,
             _ => 0,
         },
     }
@@ -431,7 +438,8 @@ impl Recipe {
             let s = self.st[&k];
             let n = set_vals(b, &k);
             let s2 = match (k, s) {
-                (Key::OAct(_, _, OA::EncRepr), St::Set(_)) => St::Set(1),
+                (Key::OAct(_, _, OA::EncRepr), St::Set(_)) if n > 0 => St::Set(1),
+                (Key::OAct(_, _, OA::EncRepr), St::Set(_)) => St::Keep,
                 (Key::OAct(_, _, OA::EncRepr), St::Absent) => St::Keep,
                 (_, St::Set(_)) if n == 0 => St::Absent,
                 (_, St::Set(v)) => St::Set(v % n),
@@ -448,13 +456,24 @@ impl Recipe {
                 _ => None,
             })
             .collect();
-        for k in implied {
-            self.st.entry(k).or_insert(St::Set(0));
-        }
-        // the own-key preimage is only ever added as an implication
-        for (k, s) in self.st.iter_mut() {
-            if let (Key::TInHash160(_, OWN_PK_SLOT), St::Set(_)) = (k, *s) {
-                *s = St::Set(0);
+        // `Signer::{sign,apply}_sapling*` needs the spend's proof generation key (documented); the
+        // party installs the real one first unless it carries a foreign one (then it signs through
+        // the low-level Signer, which has no such requirement).
+        let implied_pgk: Vec<Key> = self
+            .st
+            .iter()
+            .filter_map(|(k, s)| match (k, s) {
+                (Key::SSp(i, SSp::Sig), St::Set(0)) if !matches!(self.st.get(&Key::SSp(*i, SSp::Pgk)), Some(St::Set(1))) => {
+                    Some(Key::SSp(*i, SSp::Pgk))
+                }
+                _ => None,
+            })
+            .collect();
+        for k in implied.into_iter().chain(implied_pgk) {
+            // added for signing in any case; it stays unless the copy redacts it afterwards
+            let e = self.st.entry(k).or_insert(St::Set(0));
+            if *e == St::Keep {
+                *e = St::Set(0);
             }
         }
         if b.n_tin == 0 {
@@ -758,7 +777,14 @@ fn sign_transparent(p: Pczt, b: &Base, sigs: &[(u8, u8, u8)]) -> Result<Pczt, Fa
 
 /// Builds the PCZT a recipe describes by running roles on the base.
 pub fn materialise(b: &Base, r: &Recipe) -> Result<Pczt, Fail> {
-    let mut p = b.pczt.clone();
+    apply_to(b, b.pczt.clone(), r)
+}
+
+/// Runs the roles a recipe asks for on `p` (a PCZT of base `b`'s lineage). A role returning `Err`
+/// yields a `Fail` with signature `role-rejected-valid-request` (callers that apply recipes outside
+/// the roles' documented domains treat that signature as "the role refused").
+pub fn apply_to(b: &Base, p: Pczt, r: &Recipe) -> Result<Pczt, Fail> {
+    let mut p = p;
     let want = |k: &Key| -> Option<u8> {
         match r.st.get(k) {
             Some(St::Set(v)) => Some(*v),
@@ -832,10 +858,25 @@ pub fn materialise(b: &Base, r: &Recipe) -> Result<Pczt, Fail> {
                     | Key::TOutProp(..)
             )
     });
+    {
+        let need_pre: Vec<u8> = (0..b.n_tin as u8).filter(|i| !b.p2sh[*i as usize] && want(&Key::TInSig(*i, 0)) == Some(1)).collect();
+        p = add_own_pk_preimages(p, b, &need_pre)?;
+    }
+    // Signing a P2SH input needs its redeem script, which the Spend Finalizer removed: such a party
+    // re-installs it for signing and removes it again afterwards (unless it is to stay).
+    let temp_redeem: Vec<u8> = (0..b.n_tin as u8)
+        .filter(|i| {
+            b.p2sh[*i as usize]
+                && r.fin.is_some()
+                && want(&Key::TInRedeem(*i)).is_none()
+                && (0..b.t_sks[*i as usize].len() as u8).any(|s| want(&Key::TInSig(*i, s)).is_some())
+        })
+        .collect();
+    let t_touch = t_touch || !temp_redeem.is_empty();
     if t_touch {
         // the redeem script to re-install comes from the base itself (through the Verifier's parse)
         let mut redeems = BTreeMap::new();
-        if (0..b.n_tin as u8).any(|i| want(&Key::TInRedeem(i)).is_some()) {
+        if (0..b.n_tin as u8).any(|i| want(&Key::TInRedeem(i)).is_some()) || !temp_redeem.is_empty() {
             pczt::roles::verifier::Verifier::new(b.pczt.clone())
                 .with_transparent::<(), _>(|bundle| {
                     for (i, inp) in bundle.inputs().iter().enumerate() {
@@ -851,7 +892,7 @@ pub fn materialise(b: &Base, r: &Recipe) -> Result<Pczt, Fail> {
             .update_transparent_with(|mut u| {
                 for i in 0..b.n_tin as u8 {
                     u.update_input_with(i as usize, |mut iu| {
-                        if want(&Key::TInRedeem(i)).is_some() {
+                        if want(&Key::TInRedeem(i)).is_some() || temp_redeem.contains(&i) {
                             if let Some(rs) = redeems.get(&i) {
                                 iu.set_redeem_script(rs.clone())?;
                             }
@@ -915,7 +956,9 @@ pub fn materialise(b: &Base, r: &Recipe) -> Result<Pczt, Fail> {
     }
 
     // 4. Updater: sapling
-    let s_touch = r.st.iter().any(|(k, s)| {
+    let hi_sapling = |i: u8| want(&Key::SSp(i, SSp::Sig)) == Some(0) && want(&Key::SSp(i, SSp::Pgk)) != Some(1);
+    let pgk_for = |i: u8| want(&Key::SSp(i, SSp::Pgk)).or(hi_sapling(i).then_some(0));
+    let s_touch = (0..b.n_sspend as u8).any(|i| pgk_for(i).is_some()) || r.st.iter().any(|(k, s)| {
         matches!(s, St::Set(_))
             && matches!(
                 k,
@@ -927,7 +970,7 @@ pub fn materialise(b: &Base, r: &Recipe) -> Result<Pczt, Fail> {
             .update_sapling_with(|mut u| {
                 for i in 0..b.n_sspend as u8 {
                     u.update_spend_with(i as usize, |mut su| {
-                        if let Some(v) = want(&Key::SSp(i, SSp::Pgk)) {
+                        if let Some(v) = pgk_for(i) {
                             let extsk = if v == 0 && b.s_extsk.is_some() {
                                 b.s_extsk.clone().unwrap()
                             } else {
@@ -1063,6 +1106,26 @@ pub fn materialise(b: &Base, r: &Recipe) -> Result<Pczt, Fail> {
             }
         }
         p = sign_transparent(p, b, &tsigs)?;
+        // the own-key preimage installed only to let `append_transparent_signature` find the key
+        let temp_pre: Vec<u8> = (0..b.n_tin as u8)
+            .filter(|i| !b.p2sh[*i as usize] && want(&Key::TInSig(*i, 0)) == Some(1) && want(&Key::TInHash160(*i, OWN_PK_SLOT)).is_none())
+            .collect();
+        if !temp_redeem.is_empty() || !temp_pre.is_empty() {
+            use ripemd::Ripemd160;
+            use sha2::{Digest, Sha256};
+            p = Redactor::new(p)
+                .redact_transparent_with(|mut t| {
+                    for i in &temp_redeem {
+                        t.redact_input(*i as usize, |mut x| x.clear_redeem_script());
+                    }
+                    for i in &temp_pre {
+                        t.redact_input(*i as usize, |mut x| {
+                            x.redact_hash160_preimage(Ripemd160::digest(Sha256::digest(own_pubkey(b, *i, 0))).into())
+                        });
+                    }
+                })
+                .finish();
+        }
 
         // shielded signatures: variant 0 is applied through the Signer role, variant 1 through the
         // low-level Signer; the signature bytes themselves are deterministic per (base, spend, variant).
@@ -1071,7 +1134,7 @@ pub fn materialise(b: &Base, r: &Recipe) -> Result<Pczt, Fail> {
         for idx in &b.s_spend_idx {
             if let Some(v) = want(&Key::SSp(*idx as u8, SSp::Sig)) {
                 let sig = sapling_sig(b, *idx as u8, v)?;
-                if v == 0 {
+                if hi_sapling(*idx as u8) {
                     hi_s.push((*idx, sig));
                 } else {
                     lo_s.push((*idx, sig));
@@ -1344,7 +1407,8 @@ pub fn redact(b: &Base, p: Pczt, r: &Recipe) -> Pczt {
         let f = |mut o: pczt::roles::redactor::orchard::OrchardRedactor<'_>| {
             // `compact_resolvable_fields` is, per its documentation, exactly "memo plaintext + no
             // cv_net + no cmx" on every action whose data is complete and consistent.
-            let compact_all = n > 0 && (0..n as u8).all(|i| memo_repr(i) && gone(&Key::OAct(pool, i, OA::CvNet)) && gone(&Key::OAct(pool, i, OA::Cmx)));
+            let compact_all = n > 0
+                && (0..n as u8).all(|i| (memo_repr(i) || !memo_ok(b, pool, i)) && gone(&Key::OAct(pool, i, OA::CvNet)) && gone(&Key::OAct(pool, i, OA::Cmx)));
             if compact_all {
                 o.compact_resolvable_fields();
             }
